@@ -90,6 +90,23 @@ func Parse(source []byte) ([]*RootBlock, ReferenceMap) {
 func (p *BlockParser) NextBlock() (*RootBlock, error) {
 	// If we have any leftover closed blocks from previous calls,
 	// return those first.
+	if len(p.blocks) > 0 && !p.blocks[0].isOpen() {
+		// Leftover blocks were split off a paragraph that began with link reference definitions.
+		// A definition other than the first may begin on an indented continuation line
+		// of that paragraph. The indentation is not part of the definition
+		// (on its own, a line indented four columns would be a code block),
+		// so it is left between the blocks like blank lines are.
+		if p.blocks[0].Kind() == LinkReferenceDefinitionKind {
+			if n := indentLength(p.buf[:p.blocks[0].Span().Start]); n > 0 && n == p.blocks[0].Span().Start {
+				p.offset += int64(n)
+				p.buf = p.buf[n:]
+				p.i -= n
+				for _, b := range p.blocks {
+					offsetTree(b.AsNode(), -n)
+				}
+			}
+		}
+	}
 	if next := p.makeRoot(p.blocks); next != nil {
 		return next, nil
 	}
